@@ -73,6 +73,13 @@ func historyDoc(seed int64, history string) (*shared.Doc, error) {
 
 // makeDoc produces the document of a read-side scenario.
 func makeDoc(sp docSpec) (*shared.Doc, error) {
+	if sp.Special == "boundary" {
+		d, err := boundaryDoc(sp.Seed)
+		if err != nil {
+			return nil, core.Infra("boundary document: %v", err)
+		}
+		return d, nil
+	}
 	if sp.History != "" {
 		d, err := historyDoc(sp.Seed, sp.History)
 		if err != nil {
@@ -85,4 +92,82 @@ func makeDoc(sp docSpec) (*shared.Doc, error) {
 		return nil, core.Infra("generate %s: %v", sp.Name, err)
 	}
 	return d, nil
+}
+
+// boundaryDoc writes (with the real Writer) objects which are longer than the
+// scanner's 1024-byte buffer: dictionaries and an array full of names with
+// #xx escapes (wherever the buffer ends, an escape is near), and streams
+// whose dictionaries are padded so that the `stream` keyword begins 1018 ..
+// 1043 bytes after the start of the object, i.e. at or shortly after the end
+// of the first buffer, where a failing refill that delivers a few bytes cuts it.
+func boundaryDoc(seed int64) (*shared.Doc, error) {
+	targets := []int{1016, 1019, 1021, 1023, 1024, 1026, 1029, 1038, 1041, 1043}
+	pads := make([]int, len(targets))
+	for i := range pads {
+		pads[i] = 900
+	}
+	var doc *shared.Doc
+	for pass := 0; pass < 3; pass++ {
+		sink := &shared.MemSink{}
+		w, err := pdf.NewWriter(sink, pdf.V1_4, nil)
+		if err != nil {
+			return nil, err
+		}
+		doc = &shared.Doc{Seed: seed}
+		put := func(kind string, v pdf.Object) error {
+			ref := w.Alloc()
+			doc.Objects = append(doc.Objects, shared.DocObject{Ref: ref, Kind: kind, Start: -1, End: -1})
+			return w.Put(ref, v)
+		}
+		if err := put("dict", pdf.Dict{"Type": pdf.Name("Pages"), "Kids": pdf.Array{}, "Count": pdf.Integer(0)}); err != nil {
+			return nil, err
+		}
+		doc.Pages = doc.Objects[0].Ref
+		big := pdf.Dict{}
+		arr := pdf.Array{}
+		for i := 0; i < 150; i++ {
+			big[pdf.Name(fmt.Sprintf("k %d#(%d)", i, (int(seed)+i)%7))] = pdf.Name(fmt.Sprintf("v %d/%d", i, i%5))
+			arr = append(arr, pdf.Name(fmt.Sprintf("a b%d c", (int(seed)+i)%10)))
+		}
+		if err := put("dict", big); err != nil {
+			return nil, err
+		}
+		if err := put("array", arr); err != nil {
+			return nil, err
+		}
+		ok := true
+		for i, target := range targets {
+			ref := w.Alloc()
+			doc.Objects = append(doc.Objects, shared.DocObject{Ref: ref, Kind: "stream", Start: -1, End: -1})
+			start := sink.Pos()
+			ws, err := w.OpenStream(ref, pdf.Dict{"I": pdf.Integer(i), "P": pdf.String(strings.Repeat("p", pads[i]))})
+			if err != nil {
+				return nil, err
+			}
+			if _, err := ws.Write([]byte(fmt.Sprintf("body of stream %d\n", i))); err != nil {
+				return nil, err
+			}
+			if err := ws.Close(); err != nil {
+				return nil, err
+			}
+			at := strings.Index(string(sink.Bytes()[start:]), "\nstream\n")
+			if at < 0 {
+				return nil, fmt.Errorf("no stream keyword in object %v", ref)
+			}
+			if at+1 != target {
+				pads[i] += target - (at + 1)
+				ok = false
+			}
+		}
+		w.GetMeta().Catalog.Pages = doc.Pages
+		w.GetMeta().Info = nil
+		if err := w.Close(); err != nil {
+			return nil, err
+		}
+		doc.Bytes = sink.Bytes()
+		if ok {
+			return doc, nil
+		}
+	}
+	return nil, fmt.Errorf("stream keywords could not be placed")
 }
